@@ -1,10 +1,11 @@
 #!/bin/bash
-# usage: confirm_seed.sh <Cnn> <a|b>   -- confirms a seeded change in a scratch worktree of /repo HEAD and stores it under /verif/seeded
+# usage: [SRCROOT=/tmp/seed2/out] confirm_seed.sh <Cnn> <a|b|c> [stored-letter]   -- confirms a seeded change in a scratch worktree of /repo HEAD and stores it under /verif/seeded
 # steps: demo passes on clean tree; patch applies; production packages build; demo fails with patch; test-suite pass set unchanged.
 set -u
 ID="$1"; V="$2"
-SRC=/tmp/seed/out/$ID/$V
-WT=/tmp/confirm/$ID$V
+S="${3:-$V}"
+SRC=${SRCROOT:-/tmp/seed/out}/$ID/$V
+WT=/tmp/confirm/$ID$S
 export GOFLAGS=-mod=mod GOPROXY=off GOSUMDB=off GOTOOLCHAIN=local; unset GOWORK
 [ -f "$SRC/patch.diff" ] || { echo "$ID$V: no patch"; exit 3; }
 mkdir -p /tmp/confirm
@@ -23,7 +24,7 @@ for l in sys.stdin:
         res[e["Package"] + "::" + e["Test"]] = e["Action"]
 for k in sorted(res): print(k, res[k])'
 }
-OUT=/verif/seeded/$ID$V
+OUT=/verif/seeded/$ID$S
 mkdir -p "$OUT"
 res=ok
 # 1. demo on clean
@@ -32,7 +33,7 @@ git -C "$WT" checkout -q -- . ; git -C "$WT" clean -fdq
 # 2. apply
 if ! git -C "$WT" apply "$SRC/patch.diff" 2>"$OUT/apply.log"; then echo "$ID$V: patch does not apply to HEAD"; res=noapply; fi
 if [ $res = ok ]; then
-  (cd "$WT" && go build ./analysis/... ./generator/... ./cmd 2>&1 | grep -v '/test' ) > "$OUT/build.log" 2>&1
+  (cd "$WT" && go build ./analysis ./analysis/sql ./analysis/httpapi ./generator ./generator/dart ./generator/sql ./generator/typescript ./generator/go/gounions ./generator/go/randdata ./generator/go/sqlcrud ./cmd) > "$OUT/build.log" 2>&1 || res=nobuild
   (cd "$WT" && go vet ./analysis ./analysis/sql ./analysis/httpapi ./generator ./generator/dart ./generator/sql ./generator/typescript ./generator/go/... ./cmd >/dev/null 2>&1)
   # 3. demo with patch
   (cd "$WT" && bash "$SRC/demo.sh" "$WT" > "$OUT/demo_patched.log" 2>&1); dp=$?
@@ -46,4 +47,4 @@ else dp=-1; sd=na; fi
 cp "$SRC/patch.diff" "$OUT/patch.diff"
 cp "$SRC"/demo.sh "$SRC"/*_test.go "$SRC"/*.go "$OUT/" 2>/dev/null
 cp "$SRC/NOTES.md" "$OUT/NOTES.md" 2>/dev/null
-echo "$ID$V demo_clean_exit=$dc demo_patched_exit=$dp suite=$sd apply=$res" | tee "$OUT/confirm.txt"
+echo "$ID$S demo_clean_exit=$dc demo_patched_exit=$dp suite=$sd apply=$res" | tee "$OUT/confirm.txt"
